@@ -18,6 +18,9 @@ var intPool = []int{0, 1, -1, 2, 3, 5, 7, -7, 100, math.MaxInt64, math.MinInt64,
 var floatPool = []float64{0, math.Copysign(0, -1), 1, -1, 2.5, -2.5, 1.5, 3, 5, 1e300, -1e300, math.Inf(1), math.Inf(-1),
 	math.NaN(), math.Float64frombits(0x7FF8000000000002), math.Float64frombits(0xFFF8000000000001), 5e-324, 0.1, 7}
 var strPool = []string{"", "a", "b", "A", "ab", "abc", "B", "a%", "%", "x\x00", "\x00", "é", "ɐb", "a\u0080", "aa", "ba", "Ab", "zz", "a.c", "a,b", "q\"r", "line\nfeed"}
+// forceCaseCluster makes genColumn draw enum values from caseCluster (set by the directed like/ilike family)
+var forceCaseCluster bool
+
 var caseCluster = []string{"a", "A", "ab", "Ab", "aB", "AB", "b", "B"}
 var namePool = []string{"A", "B", "C", "D", "E", "col", "x y", "é", "a\"b", "T"}
 
@@ -84,8 +87,11 @@ func genColumn(r *hlib.Rng, name, kind string, n int, small bool) genCol {
 		vals := []string{}
 		k := 1 + r.Intn(5)
 		pool := strPool
-		if r.Chance(1, 3) {
+		if r.Chance(1, 3) || forceCaseCluster {
 			pool = caseCluster // values that differ only in case: several of them match one ilike pattern
+			if forceCaseCluster {
+				k = 3 + r.Intn(4)
+			}
 		}
 		perm := r.Perm(len(pool))
 		for i := 0; i < k; i++ {
